@@ -6,7 +6,7 @@ deviations of synced collections encoded once (see DESIGN.md 2.4).
 import copy
 from collections.abc import Mapping, Sequence
 
-from .plain import Ref, Slice, norm, plain, canon
+from .plain import Inv, Ref, Slice, norm, plain, canon
 
 DICT_MUT = ["setitem", "delitem", "pop", "popitem", "clear", "update", "setdefault", "reset"]
 DICT_READ = ["getitem", "get", "len", "iter", "contains", "keys", "values", "items", "call",
@@ -51,6 +51,16 @@ def exc_family(e):
     return type(e).__name__
 
 
+def _has_inv(x):
+    if isinstance(x, Inv):
+        return True
+    if isinstance(x, list):
+        return any(_has_inv(v) for v in x)
+    if isinstance(x, dict):
+        return any(_has_inv(v) for v in x.values())
+    return False
+
+
 class Outcome:
     __slots__ = ("ok", "value", "family", "detail")
 
@@ -66,9 +76,31 @@ class Outcome:
         return repr(self.brief())
 
 
+class _Unserializable:
+    pass
+
+
+INVALID = {"object": object, "set": lambda: {1, 2}, "complex": lambda: 1j, "instance": _Unserializable,
+           "intkey": lambda: {1: 2}, "dotkey": lambda: {"a.b": 1}}
+
+
+def _deep_inv(x):
+    if isinstance(x, Inv):
+        return INVALID[x.name]()
+    if isinstance(x, list):
+        return [_deep_inv(v) for v in x]
+    if isinstance(x, dict):
+        return {k: _deep_inv(v) for k, v in x.items()}
+    return x
+
+
 def _real_arg(x, resolve_real):
     if isinstance(x, Slice):
         return x.s()
+    if isinstance(x, Inv):
+        return INVALID[x.name]()
+    if isinstance(x, (list, dict)):
+        return _deep_inv(copy.deepcopy(x)) if _has_inv(x) else copy.deepcopy(x)
     if isinstance(x, Ref):
         return resolve_real(x.h)
     return copy.deepcopy(x)
